@@ -212,7 +212,7 @@ func cmdCheck(args []string) int {
 		}
 		for _, m := range fnRE.FindAllSubmatch(h.Src, -1) {
 			name := string(m[1])
-			if *only != "" && !strings.Contains(name, *only) {
+			if *only != "" && !onlyMatch(*only, name) {
 				continue
 			}
 			fn := spkg.Func(name)
@@ -391,6 +391,21 @@ func cmdCheck(args []string) int {
 		return 2
 	}
 	return exit
+}
+
+// onlyMatch: the --only argument is a comma separated list of substrings; a
+// trailing '$' anchors one at the end of the harness name.
+func onlyMatch(only, name string) bool {
+	for _, pat := range strings.Split(only, ",") {
+		if strings.HasSuffix(pat, "$") {
+			if strings.HasSuffix(name, strings.TrimSuffix(pat, "$")) {
+				return true
+			}
+		} else if strings.Contains(name, pat) {
+			return true
+		}
+	}
+	return false
 }
 
 type multiFlag []string
